@@ -9,6 +9,7 @@ pub mod c01;
 pub mod c01cli;
 pub mod c02;
 pub mod c03;
+pub mod c04;
 pub mod c05;
 pub mod rules;
 pub mod c10;
